@@ -1,23 +1,50 @@
 """C04 - the data tree stays canonical and searchable under any edit history"""
-from props import oracles
+from props import comps_sorted, oracles
 
 PID = "C04"
-LEVEL = "exploration"
+LEVEL = "proof"
 
 
 def components():
-    return []
+    return [comps_sorted.RbStatic(), comps_sorted.LydsApi()]
 
 
 def oracles_():
-    return [oracles.EditHistory()]
+    return [oracles.EditHistory(), comps_sorted.SortedOrder()]
 
+
+TRUSTED = [
+    "impl/t_sorted.c read-only checker of the red-black tree / sibling links / lyds_tree metadata placement "
+    "(link-level faithfulness of the zipper model is tied by this checker, not proved)",
+]
+
+ASSUMPTIONS = [
+    "the type plugin's sort callback is a total preorder (premise total_preorder of the C04_* theorems; proved for the "
+    "integer types, decimal64 and boolean in C03, instance C04_int_order_instance); other types are only run (string, union)",
+    "identity of data nodes is modelled by a decidable equality on (key, id) pairs (premise is_identity)",
+]
 
 MANIFEST = {
-    "category": "exploration",
-    "text": "Random edit histories through the public API with a read-only invariant checker after EVERY call (links, schema order, "
-            "contiguity, sortedness by the type's order, children hash table content, every search = scan), print/parse fixpoint, "
-            "and creation-order independence.",
-    "note": "Testing only so far; the hash-table refinement proof (slice ht) and the sorted-insertion/red-black proofs are in progress.",
-    "technique": "randomised edit histories + white-box invariant checker (proofs of the index structures in progress)",
+    "text": "PROVED (Coq, Properties_C04_sorted.v, closed under the global context) - the ordering kernel: the red-black tree "
+            "of src/tree_data_sorted.c modelled branch by branch (rb_insert_node/rb_insert_color, rb_remove/rb_remove_color, "
+            "rb_find, rb_prev/rb_next; parent pointers as a zipper) for an ARBITRARY total preorder: in-order walk after "
+            "insert = stable insert (equal keys after the existing ones), after remove = walk without that element; search "
+            "order, black root, no red-red, equal black height are preserved and the unchecked sibling/grandparent "
+            "dereferences never meet NULL (C04_rb_inv_preserved, C04_rb_remove_no_null_deref); height <= 2 log2(n+1); rb_find "
+            "finds a node iff a scan does; every history of inserts/removes keeps the walk sorted, a permutation of the live "
+            "nodes with equal keys in insertion order (C04_sorted_history); insertion-order independence for distinct keys; "
+            "and one level up (Sorted.v: lyds_insert incl. lazy tree creation and lyds_link_data_node, lyds_unlink) the sibling "
+            "sequence of one system-ordered (leaf-)list equals the tree walk and the abstract stable sorted sequence after "
+            "every history (C04_lyds_history). TIED by T2: extracted model vs the static rb_* functions and vs the public API "
+            "(lyd_new_term/lyd_new_list, lyd_insert_child/sibling, lyd_unlink_tree, lyd_free_tree, LYD_INSERT_NODE_LAST "
+            "appends, lyd_find_sibling_val) on int8/string/decimal64/union leaf-lists and 1-/2-key lists, comparing after "
+            "EVERY call the sibling order, the exact tree shape with colours, the metadata owner and a read-only invariant "
+            "check; exhaustive scripts over 4 keys plus long random scripts. EXPLORED ONLY (oracle EditHistory, no proof): whole "
+            "edit histories through create-by-path, dup, merge, diff apply, implicit nodes, validate; schema order between "
+            "different nodes; user-ordered lists; the children hash table; every search function = scan.",
+    "note": "Not modelled in Coq: lyds_split, lyds_merge (4 cases), lyds_insert2 / lyds_pool (dup), rb_iter_traversal, parent-pointer "
+            "and metadata link-level details (checked by the driver's checker only), ChildIdx/Edit layers of DESIGN.md C04 "
+            "(slice ht covers the hash table itself). The known finding implicit-toplevel-order belongs to the explored part.",
+    "technique": "Coq proof over hand-written model (ordering kernel) + differential correspondence incl. exact tree shape "
+                 "(extracted OCaml vs C, white-box and public API) + randomised edit histories with invariant checker (rest)",
 }
